@@ -871,3 +871,108 @@ Proof.
   rewrite (reduce_is_sum ops Rth _ Hne) in Hr. congruence.
 Qed.
 End Textbook.
+
+(* ================================================================ adaptors keep views well formed *)
+(* so that the hypotheses `view_wf` of the theorems above are met by non-row-major operands:
+   reversed, renamed and ranged views of a well-formed view are well formed, and their elements
+   are the source's elements at the mapped index *)
+Section Adaptors.
+Context {A : Type}.
+
+Lemma lens_of_combine (names : list name) (lens : list N) : length names = length lens ->
+  lens_of (combine names lens) = lens /\ names_of (combine names lens) = names.
+Proof.
+  revert lens; induction names as [|n names IH]; intros [|l lens] H; cbn in H; try lia.
+  - split; reflexivity.
+  - destruct (IH lens) as [E1 E2]; [lia|]. unfold lens_of, names_of in *. cbn. rewrite E1, E2. auto.
+Qed.
+
+Lemma reverse_indexes_in_range idx : forall sh reversed, length reversed = length sh ->
+  in_range idx (lens_of sh) -> in_range (reverse_indexes idx sh reversed) (lens_of sh).
+Proof.
+  induction idx as [|i idx IH]; intros [|[n len] sh] [|r reversed] Hl;
+    cbn [length] in Hl; try lia; cbn [lens_of map snd in_range reverse_indexes]; try tauto.
+  intros [Hi Hr]. split; [|apply IH; [lia|exact Hr]].
+  destruct r; [|exact Hi]. destruct (N.ltb_spec (len - 1) i); lia.
+Qed.
+
+Theorem reverse_wf (v v' : tview A) names : view_wf v -> v_reverse v names = Some v' ->
+  view_wf v' /\ v_shape v' = v_shape v /\
+  forall idx, v_get v' idx =
+    v_get v (reverse_indexes idx (v_shape v)
+               (map (fun d => existsb (Nat.eqb (fst d)) names) (v_shape v))).
+Proof.
+  intros [Hv [Hb Hg]]. unfold v_reverse.
+  destruct (has_duplicates names || negb (forallb (contains (v_shape v)) names)); [discriminate|].
+  intros [= <-]. cbn [v_shape v_get]. split; [|split; reflexivity].
+  split; [exact Hv|]. split; [exact Hb|]. intros idx Hr. apply Hg.
+  apply reverse_indexes_in_range; [apply map_length|exact Hr].
+Qed.
+
+Theorem rename_wf (v v' : tview A) names : view_wf v -> v_rename v names = Some v' ->
+  view_wf v' /\ names_of (v_shape v') = names /\ lens_of (v_shape v') = lens_of (v_shape v) /\
+  forall idx, v_get v' idx = v_get v idx.
+Proof.
+  intros [[Hnd Hpos] [Hb Hg]]. unfold v_rename.
+  destruct (Nat.eqb_spec (length names) (length (v_shape v))) as [Hl|]; cbn [negb orb]; [|discriminate].
+  destruct (has_duplicates names) eqn:Hd; [discriminate|]. intros [= <-]. cbn [v_shape v_get].
+  destruct (lens_of_combine names (lens_of (v_shape v))) as [E1 E2];
+    [unfold lens_of; rewrite map_length; exact Hl|].
+  split; [|repeat split; auto]. unfold view_wf. cbn [v_shape v_get].
+  split; [split; [rewrite E2; apply has_duplicates_false, Hd|rewrite E1; exact Hpos]|].
+  split; [unfold elements in *; rewrite E1; exact Hb|]. intros idx Hr. apply Hg. rewrite <- E1. exact Hr.
+Qed.
+
+Lemma range_bounds sh : forall rs, length rs = length sh -> exceeds_bounds sh rs = false ->
+  Forall2 (fun d r => fst r + snd r <= snd d) sh rs.
+Proof.
+  induction sh as [|[n len] sh IH]; intros [|[start l] rs] Hl; cbn [length] in Hl; try lia.
+  - constructor.
+  - cbn [exceeds_bounds]. rewrite !orb_false_iff, !N.ltb_ge. intros [[_ H1] H2].
+    constructor; [cbn; lia|apply IH; [lia|exact H2]].
+Qed.
+
+Lemma map_by_range_in_range sh : forall rs idx, Forall2 (fun d r => fst r + snd r <= snd d) sh rs ->
+  in_range idx (map snd rs) ->
+  exists j, map_by_range idx rs = Some j /\ in_range j (lens_of sh).
+Proof.
+  induction sh as [|[n len] sh IH]; intros rs idx HF; inversion HF as [|? [start l] ? rs' Hd HF']; subst.
+  - destruct idx; cbn; [eauto|tauto].
+  - destruct idx as [|i idx]; cbn [map snd in_range]; [tauto|]. intros [Hi Hr].
+    destruct (IH rs' idx HF' Hr) as [j [Ej Hj]]. cbn [map_by_range].
+    destruct (N.ltb_spec i l); [|lia]. rewrite Ej. cbn [option_map].
+    eexists. split; [reflexivity|]. cbn [lens_of map snd in_range]. cbn in Hd. split; [lia|exact Hj].
+Qed.
+
+Lemma prod_le l1 : forall l2, Forall2 (fun a b => a <= b) l1 l2 -> prod l1 <= prod l2.
+Proof.
+  induction l1 as [|a l1 IH]; intros l2 H; inversion H; subst; [reflexivity|].
+  rewrite !prod_cons. apply N.mul_le_mono; auto.
+Qed.
+
+Theorem range_wf (v v' : tview A) rs : view_wf v -> v_range v rs = Some v' ->
+  view_wf v' /\ names_of (v_shape v') = names_of (v_shape v) /\ lens_of (v_shape v') = map snd rs /\
+  forall idx, in_range idx (map snd rs) ->
+    exists j, map_by_range idx rs = Some j /\ in_range j (lens_of (v_shape v)) /\
+              v_get v' idx = v_get v j.
+Proof.
+  intros [Hv [Hb Hg]]. unfold v_range.
+  destruct (Nat.eqb_spec (length rs) (length (v_shape v))) as [Hl|]; cbn [negb orb]; [|discriminate].
+  destruct (exceeds_bounds (v_shape v) rs) eqn:Ex; [discriminate|].
+  destruct (valid_shape_b _) eqn:Vs; [|discriminate]. intros [= <-]. cbn [v_shape v_get].
+  destruct (lens_of_combine (names_of (v_shape v)) (map snd rs)) as [E1 E2];
+    [unfold names_of; rewrite !map_length; auto|].
+  pose proof (range_bounds _ _ Hl Ex) as HF.
+  assert (Hget : forall idx, in_range idx (map snd rs) ->
+    exists j, map_by_range idx rs = Some j /\ in_range j (lens_of (v_shape v)) /\
+      match map_by_range idx rs with Some j => v_get v j | None => None end = v_get v j).
+  { intros idx Hr. destruct (map_by_range_in_range _ _ _ HF Hr) as [j [Ej Hj]].
+    exists j. rewrite Ej. auto. }
+  split; [|repeat split; auto]. unfold view_wf. cbn [v_shape v_get].
+  split; [apply valid_shape_b_spec, Vs|]. split.
+  - unfold elements in *. rewrite E1. eapply N.le_trans; [|exact Hb]. apply prod_le.
+    clear - HF. unfold lens_of. induction HF as [|[n len] [s l] sh rs H _ IH]; cbn; constructor; auto.
+    cbn in H. lia.
+  - intros idx Hr. rewrite E1 in Hr. destruct (Hget idx Hr) as [j [_ [Hj ->]]]. apply Hg, Hj.
+Qed.
+End Adaptors.
